@@ -64,7 +64,8 @@ ASSUMPTIONS = ["BNode() ids (uuid4) differ from each other and from every id alr
                "parse calls of a history",
                "caller-requested sharing / naming (bnode_context=, one N-Quads parser object used again, preserve_bnode_ids=True, "
                "skolemize=True) replaces the merge by exactly what was asked for (Lean: caller_shared_context_shares_exactly, "
-               "preserve_bnode_ids_is_verbatim, skolemize_no_blank_nodes); a bnode_context dict starts empty",
+               "preserve_bnode_ids_is_verbatim, skolemize_no_blank_nodes); a bnode_context dict starts empty or with entries "
+               "label -> distinct nodes of the target / of the caller (the theorem's hypothesis MapInv)",
                "N3 gives every formula occurrence { } its own label scope (what the code does, and N3's reading of _:x as an "
                "existential of the formula): the oracle makes one node per (document, formula occurrence, label); "
                "no variables / @forAll"]
@@ -97,7 +98,7 @@ LAB = ["b0", "b1", "x", "genid1", "N" + H1, "N" + H2, "n" + H1 + "b1", "f" + H2 
 EMPTY = 31
 NEAR = [0] + list(range(12, 27))
 DIGITS = [27, 28, 29, 30, 21]
-COLON_OK = {"nt", "nquads", "trix", "json-ld", "hext"}
+COLON_OK = {"nt", "nquads", "trix", "json-ld", "hext", "patch"}
 N3_FAMILY = ["turtle", "n3", "trig"]
 
 
@@ -180,10 +181,10 @@ ROUTES = ["location", "srcpath", "pathlib", "fileb", "filet", "insrc", "pyobj"]
 FMTARGS = ["alias", "guess"]
 JL_MODES = ["coerce", "reverse", "included", "nestgraph"]
 EXT = {"nt": ".nt", "nquads": ".nq", "turtle": ".ttl", "n3": ".n3", "trig": ".trig", "xml": ".rdf", "trix": ".trix",
-       "json-ld": ".jsonld", "hext": ".hext"}          # rdflib.util.guess_format knows all but .hext
+       "json-ld": ".jsonld", "hext": ".hext", "patch": ".rdp"}          # rdflib.util.guess_format knows all but .hext
 ALIASES = {"nt": ["ntriples", "nt11", "application/n-triples"], "nquads": ["application/n-quads"],
            "turtle": ["ttl", "text/turtle"], "n3": ["text/n3"], "trig": ["application/trig"],
-           "xml": ["application/rdf+xml"], "trix": ["application/trix"], "json-ld": ["application/ld+json"], "hext": ["hext"]}
+           "xml": ["application/rdf+xml"], "trix": ["application/trix"], "json-ld": ["application/ld+json"], "hext": ["hext"], "patch": ["patch"]}
 
 
 def _gen_style(rng, share=0.3):
@@ -198,12 +199,16 @@ def _gen_style(rng, share=0.3):
     return st
 
 
-def _gen_doc(rng, sink, idx, pool, earlier, init_bn, share=0.3, ctxcase=False):
+def _gen_doc(rng, sink, idx, pool, earlier, init_bn, share=0.3, ctxcase=False, init_quads=()):
     """abstract document for parse call #idx; `earlier` = [(I, [K…])] documents with marker triples"""
     quadfmt = sink not in PLAIN and rng.random() < 0.6
     fmt = rng.choice(D.QUAD_FMTS if quadfmt else D.TRIPLE_FMTS if sink != "simple" else SIMPLE_FMTS)
     if ctxcase:                  # a case about bnode_context=: N-Triples / N-Quads documents
         fmt = "nquads" if quadfmt else "nt"
+    elif sink == "ds" and rng.random() < share / 4:
+        # (round h) an RDF Patch: `A` rows (and sometimes a `D` row); its labels are the store's nodes by design
+        fmt, quadfmt = "patch", True
+        earlier = []
     anon_ok = fmt in D.ANON_SO and rng.random() < 0.5
     # "counting" documents: all-digit labels next to several [] / ( ) nodes, in the syntaxes whose parser numbers its nodes
     counting = any(k in DIGITS for k in pool) and rng.random() < 0.7 and not ctxcase
@@ -371,6 +376,21 @@ def _gen_doc(rng, sink, idx, pool, earlier, init_bn, share=0.3, ctxcase=False):
     if sink not in PLAIN and rng.random() < 0.3:
         into = rng.choice(["i20", "i21"] + init_bn[:2])
     d = {"fmt": fmt, "quads": quads, "into": into, "style": _gen_style(rng, share)}
+    if fmt == "patch":
+        marks = []
+        d["quads"] = quads = [q for q in quads if q[1] != "i%d" % MARK_P]
+        if not quads:
+            d["quads"] = quads = [["n%d" % legal[0], "i%d" % PRED_I[0], "i2", "-"]]
+        if rng.random() < 0.45:      # a D row: a statement of the initial content, one of this patch's own rows, or nothing
+            r = rng.random()
+            writable = [q0 for q0 in init_quads if all(t[0] != "b" or (int(t[1:]) != EMPTY and label_ok(int(t[1:]), "patch")) for t in q0)]
+            if r < 0.5 and writable:
+                q0 = rng.choice(writable)
+                d["dels"] = [[("n" + t[1:]) if t[0] == "b" else t for t in q0[:3]] + ["-" if q0[3] == "i0" else ("n" + q0[3][1:]) if q0[3][0] == "b" else q0[3]]]
+            elif r < 0.8:
+                d["dels"] = [list(rng.choice(quads))]
+            else:
+                d["dels"] = [["i%d" % rng.choice(SUBJ_I), "i%d" % rng.choice(PRED_I), "l0", "-"]]
     if opts:
         d["opts"] = opts
     return d, marks
@@ -423,12 +443,30 @@ def gen_case(rng, tier, i):
                 d["opts"] = dict(src["opts"])
             elif src.get("opts"):
                 d["fmt"], d["style"], d["opts"] = src["fmt"], dict(src["style"]), dict(src["opts"])
+            if src.get("dels") and d["fmt"] == "patch":
+                d["dels"] = [list(q) for q in src["dels"]]
             docs.append(d)
             continue
-        d, marks = _gen_doc(rng, sink, idx, pool, earlier, init_bn, share, ctxcase)
+        d, marks = _gen_doc(rng, sink, idx, pool, earlier, init_bn, share, ctxcase, init)
         docs.append(d)
         if marks:
             earlier.append((idx, marks))
+    # (round h) a caller's dict that already has entries when it is handed over: label -> a node of the target (or a node
+    # the caller made); distinct nodes for distinct labels
+    ctxinit = {}
+    used_ctx = sorted({d["opts"]["ctx"] for d in docs if "ctx" in (d.get("opts") or {})})
+    for kctx in used_ctx:
+        # (not next to hextuples documents: their verbatim labels — known finding K1 — would meet the caller's node ids and
+        # K1 would surface on a document that is not a hext document)
+        if rng.random() < 0.5 and not any(d["fmt"] == "hext" for d in docs):
+            labs = rng.sample(pool, min(len(pool), rng.randint(1, 2)))
+            nodes = rng.sample([x for x in range(12)], len(labs))
+            ctxinit[str(kctx)] = [[k, "b%d" % n] for k, n in zip(labs, nodes) if k != EMPTY]
+    if any(d["fmt"] == "hext" for d in docs):
+        for d in docs:          # (the same for RDF Patch documents, whose labels are the store's nodes: read as N-Quads)
+            if d["fmt"] == "patch":
+                d["fmt"] = "nquads"
+                d.pop("dels", None)
     if any(d["fmt"] == "hext" for d in docs):
         # hextuples keeps labels verbatim (known finding K1); next to a preserve_bnode_ids=True document the two would
         # share nodes by id, and K1 would surface on a document that is not a hext document: not combined
@@ -439,7 +477,7 @@ def gen_case(rng, tier, i):
     # pytest-randomly, fork()ed workers): BNode() ids must not depend on it
     reseed = rng.choice(["seed0", "restore", "seedidx"]) if rng.random() < share / 2 else None
     return {"sink": sink, "init": init, "docs": docs, "fresh": fresh, "predict": rng.random() < 0.5, "union": union,
-            "reuse": reuse, "reseed": reseed}
+            "reuse": reuse, "reseed": reseed, "ctxinit": ctxinit}
 
 
 # ---------------------------------------------------------------- running the implementation
@@ -541,7 +579,7 @@ def _graph_of(target, kind, name):
 
 
 FORMAT_NAME = {"nt": "nt", "nquads": "nquads", "turtle": "turtle", "n3": "n3", "trig": "trig", "xml": "xml",
-               "trix": "trix", "json-ld": "json-ld", "hext": "hext"}
+               "trix": "trix", "json-ld": "json-ld", "hext": "hext", "patch": "patch"}
 
 
 def _parse(target, kind, into_term, fmt, text, style, bnode_preds=False, plugins=None, stats=None, opts=None, ctxs=None):
@@ -565,7 +603,7 @@ def _parse(target, kind, into_term, fmt, text, style, bnode_preds=False, plugins
     if fmtarg == "alias":
         name = ALIASES[fmt][len(text) % len(ALIASES[fmt])]
         count("format.alias")
-    guess = fmtarg == "guess" and route in ("location", "srcpath", "pathlib", "fileb", "filet") and fmt != "hext"
+    guess = fmtarg == "guess" and route in ("location", "srcpath", "pathlib", "fileb", "filet") and fmt not in ("hext", "patch")
     kw = {} if guess else {"format": name}
     if guess:
         count("format.guessed_from_file_name")
@@ -741,6 +779,30 @@ def _eff_opts(doc):
     return o
 
 
+def _concrete_simple(quads):
+    """abstract statements without references (D rows of a patch) -> concrete quads for the writers"""
+    def term(t):
+        if t == "-":
+            return None
+        if t[0] == "i":
+            return ("i", str(DEFAULT) if int(t[1:]) == 0 else iri_str(int(t[1:])))
+        if t[0] == "l":
+            return ("l",) + lit_tuple(int(t[1:]))
+        return ("n", LAB[int(t[1:]) % len(LAB)])
+    return [tuple(term(t) for t in q) for q in quads]
+
+
+def _patch_quad(q):
+    """the quad a patch row talks about: labels are the store's nodes, no graph column = the dataset's default graph"""
+    def m(t):
+        if t[0] == "i":
+            return URIRef(t[1])
+        if t[0] == "l":
+            return Literal(t[1], lang=t[3], datatype=URIRef(t[2]) if t[2] else None)
+        return BNode(t[1])
+    return (m(q[0]), m(q[1]), m(q[2]), DEFAULT if q[3] is None else m(q[3]))
+
+
 def _iso(a, b, stats=None):
     """isoutil.iso; when its search budget runs out (many interchangeable copies of one structure) fall back to the
     canonical labelling below — counted, so that it stays rare"""
@@ -853,8 +915,18 @@ def _run_impl(case):
     obs, viol = [], []
     stats = {"docs": len(case["docs"]), "sink_" + kind: 1}
     plugins = {}                 # parser plugin objects shared by the documents of this case (style "plugin")
+    used = {}                     # label string -> set of parse calls using it
     ctxs = {}                    # the caller's bnode_context dicts of this case, by number (opts "ctx")
     shared_nodes = {}            # oracle: (dict or parser object, label) -> the one node the caller asked for
+    ctx_given = {}               # entries the caller put into its dicts beforehand: (k, label) -> node
+    for kctx, entries in (case.get("ctxinit") or {}).items():
+        for lab_k, node in entries:
+            b = bn_init(node)
+            ctxs.setdefault(int(kctx), {}).setdefault(LAB[lab_k], b)
+            ctx_given[(int(kctx), LAB[lab_k])] = ctxs[int(kctx)][LAB[lab_k]]
+            shared_nodes[(("ctx", int(kctx)), LAB[lab_k])] = BNode(str(ctxs[int(kctx)][LAB[lab_k]]))
+            used.setdefault(str(b), set()).add(-1)
+            stats["ctx_prepopulated_entries"] = stats.get("ctx_prepopulated_entries", 0) + 1
     stats["axis.target." + kind + ("_default_union" if case.get("union") else "")] = 1
     pi = _predict_target(case)
     if pi is not None:
@@ -866,7 +938,6 @@ def _run_impl(case):
             merge.add(q)
             if not bid.startswith("pred"):
                 stats["predicted_ids"] = stats.get("predicted_ids", 0) + 1
-    used = {}                     # label string -> set of parse calls using it
     for k in init_bn.values():
         used.setdefault(str(k), set()).add(-1)
 
@@ -893,7 +964,8 @@ def _run_impl(case):
         if _eff_into(case, doc) is not None:
             into = _rdf_term(_eff_into(case, doc), bn_init)
             stats["into_named"] = stats.get("into_named", 0) + 1
-        text = D.write(fmt, cq, doc["style"])
+        cdels = _concrete_simple(doc.get("dels") or []) if fmt == "patch" else []
+        text = D.write(fmt, cq, {**doc["style"], "_dels": cdels} if fmt == "patch" else doc["style"])
         if case.get("reuse"):
             doc = {**doc, "style": {**doc["style"], "plugin": True, "route": None, "fmtarg": None}}
         opts = _eff_opts(doc)
@@ -912,6 +984,12 @@ def _run_impl(case):
         after, dups = _quads_of(target)
         # ---- oracle 1: nothing removed or altered
         lost = before - after
+        if fmt == "patch":          # the D rows of an RDF Patch ask for exactly these statements to go (labels = the store's nodes)
+            asked = {tuple(_norm(x) for x in _patch_quad(q)) for q in cdels}
+            if lost & asked:
+                stats["patch_D_row_removed_something"] = stats.get("patch_D_row_removed_something", 0) + 1
+            lost = lost - asked
+            stats["patch_D_rows"] = stats.get("patch_D_rows", 0) + len(cdels)
         if lost:
             viol.append(f"removed: parsing document {idx} ({fmt}) removed {len(lost)} quad(s), e.g. {sorted(map(str, next(iter(lost))))}")
         if dups:
@@ -922,7 +1000,7 @@ def _run_impl(case):
         # again): one node per (dict, label) for all the calls that were given that dict; JSON-LD without
         # generalized_rdf: statements with a blank-node predicate are not part of the RDF the document stands for
         fresh = {}
-        where = DEFAULT if into is None else into
+        where = DEFAULT if into is None or fmt == "patch" else into      # (a patch is applied to the dataset, not to a graph of it)
         scope = ("ctx", opts["ctx"]) if "ctx" in opts else ("inst", opts["inst"]) if "inst" in opts else None
         for q in cq:
             # N3: a label written inside a formula belongs to that formula occurrence (its own scope)
@@ -937,7 +1015,7 @@ def _run_impl(case):
                     return fresh.setdefault((t, fscope), BNode("M%dxF%dn%s" % (idx, fscope[1], t[1])))
                 if t[0] == "n" and opts.get("sk"):
                     return URIRef(GENID + t[1])
-                if t[0] == "n" and opts.get("pre"):
+                if t[0] == "n" and (opts.get("pre") or fmt == "patch"):
                     return BNode(t[1])
                 if t[0] == "n" and scope is not None:
                     return shared_nodes.setdefault((scope, t[1]), BNode("M%s%dx%s" % (scope[0], scope[1], t[1])))
@@ -945,6 +1023,9 @@ def _run_impl(case):
             if opts.get("nogen") and q[1][0] == "n":
                 continue
             merge.add((m(q[0]), m(q[1]), m(q[2]), where if q[3] is None else m(q[3])))
+        for q in cdels:
+            merge.discard(_patch_quad(q))
+            merge.discard(tuple(_norm(x) for x in _patch_quad(q)))
         if err == "ok" and not _iso(after, merge, stats):
             nb = len({x for q in after for x in q if isinstance(x, BNode)})
             nm = len({x for q in merge for x in q if isinstance(x, BNode)})
@@ -967,13 +1048,19 @@ def _run_impl(case):
             small = sorted(LAB.index(k) for k in keys if k in LAB)
             other = len(keys) - len(small)
             line += " ctx=" + (",".join(map(str, small)) or "-") + (" +%d" % other if other else "")
+            for (kc, lab_), node in ctx_given.items():
+                if kc == opts["ctx"] and ctxs[kc].get(lab_) != node:
+                    viol.append(f"ctx-value: the entry the caller put into bnode_context for {lab_!r} was replaced by document {idx}")
+                if kc == opts["ctx"] and lab_ in labels.values():
+                    stats["ctx_prepopulated_label_used"] = stats.get("ctx_prepopulated_label_used", 0) + 1
             bad = [k for k, v in ctxs.get(opts["ctx"], {}).items() if not isinstance(v, BNode)]
             if bad:
                 viol.append(f"ctx-value: bnode_context[{bad[0]!r}] is not a BNode after document {idx}")
         obs.append(line)
     # ---- oracle 3: the same document into two fresh targets
     fi = case.get("fresh")
-    if fi is not None and fi < len(case["docs"]) and set(_eff_opts(case["docs"][fi])) & {"ctx", "inst", "sk", "pre"}:
+    if fi is not None and fi < len(case["docs"]) and (set(_eff_opts(case["docs"][fi])) & {"ctx", "inst", "sk", "pre"}
+                                                      or case["docs"][fi]["fmt"] == "patch"):
         fi = None               # (requested sharing / naming: the two-fresh-targets clause is about the default behaviour)
     if fi is not None and fi < len(case["docs"]) and not any(t.startswith("r") for q in case["docs"][fi]["quads"] for t in q):
         doc = case["docs"][fi]
@@ -1092,7 +1179,7 @@ def _run_impl(case):
         stats["ctx_label_shared_between_calls"] = 1
     stats["same_doc_again"] = sum(1 for j, d in enumerate(case["docs"]) if any(d["quads"] == e["quads"] for e in case["docs"][:j]))
     return {"obs": obs, "viol": viol, "nontrivial": bool(shared),
-            "key": repr((kind, case["init"], [(d["fmt"], d["quads"], d["into"]) for d in case["docs"]])),
+            "key": repr((kind, case["init"], [(d["fmt"], d["quads"], d["into"], d.get("dels")) for d in case["docs"]])),
             "stats": stats}
 
 
@@ -1172,6 +1259,7 @@ def model_lines(case):
     if pi is not None:
         for j in range(len(_anon_terms(case["docs"][pi]))):
             lines.append("init b%d i%d i1 i0" % (900 + j, PRED_I[2]))
+    lines += _ctxset_lines(case)
     for idx, doc in enumerate(case["docs"]):
         into = _eff_into(case, doc) or "i0"
         # the parser by name: the model runs that parser's own node function (lean/RV/C12/Parsers.lean) with the options
@@ -1190,6 +1278,11 @@ def model_lines(case):
         if "ctx" in o:
             lines.append("ctx %d" % o["ctx"])
     return lines
+
+
+def _ctxset_lines(case):
+    return ["ctxset %s n%d %s" % (k, lab_k, node) for k, entries in sorted((case.get("ctxinit") or {}).items())
+            for lab_k, node in entries]
 
 
 def _stmt_lines(case, idx, doc):
@@ -1212,12 +1305,14 @@ def _stmt_lines(case, idx, doc):
                     lines.append("close")
         lines.append("q " + " ".join(_model_term_doc(case, idx, t) for t in q))
     lines += ["close"] * len(stack)
+    if doc["fmt"] == "patch":
+        lines += ["d " + " ".join("n%d" % (int(t[1:]) % len(LAB)) if t[0] == "n" else t for t in q) for q in doc.get("dels") or []]
     return lines
 
 
 def select_model_obs(case, out):
     pi = _predict_target(case)
-    res, k = [], 1 + len(case["init"]) + (len(_anon_terms(case["docs"][pi])) if pi is not None else 0)
+    res, k = [], 1 + len(case["init"]) + (len(_anon_terms(case["docs"][pi])) if pi is not None else 0) + len(_ctxset_lines(case))
     for idx, doc in enumerate(case["docs"]):
         k += 1 + len(_stmt_lines(case, idx, doc)) + 1
         line = out[k]
@@ -1272,6 +1367,9 @@ def shrink(case):
         yield {**case, "reuse": False}
     if case.get("reseed"):
         yield {**case, "reseed": None}
+    for kc, entries in (case.get("ctxinit") or {}).items():
+        for j in range(len(entries)):
+            yield {**case, "ctxinit": {**case["ctxinit"], kc: entries[:j] + entries[j + 1:]}}
     if case.get("union"):
         yield {**case, "union": False}
     for i in range(len(docs)):
@@ -1291,6 +1389,8 @@ def shrink(case):
                 yield {**case, "docs": docs[:i] + [nd] + docs[i + 1:]}
         if d["into"] is not None:
             yield {**case, "docs": docs[:i] + [{**d, "into": None}] + docs[i + 1:]}
+        for j in range(len(d.get("dels") or [])):
+            yield {**case, "docs": docs[:i] + [{**d, "dels": d["dels"][:j] + d["dels"][j + 1:]}] + docs[i + 1:]}
         for k in list(d.get("opts") or {}):
             yield {**case, "docs": docs[:i] + [{**d, "opts": {a: b for a, b in d["opts"].items() if a != k}}] + docs[i + 1:]}
         if any(d["style"].values()):
